@@ -302,6 +302,7 @@ func registerStdModels() {
 		var res Value
 		return &Native{name: "sync.Once*", fn: func(fr2 *frame, a []Value) Value {
 			if !done {
+				it.impure("sync.Once")
 				res = it.call(fr2, 0, f, nil)
 				done = true
 				it.ex.journal = append(it.ex.journal, undoEntry{fn: func() { done = false; res = nil }})
@@ -549,6 +550,7 @@ func (it *Interp) mutexTable() map[*Value]*mutexState {
 }
 
 func (it *Interp) mutexLock(fr *frame, p *Value, write bool) {
+	it.impure("mutex")
 	if p == nil {
 		panic(targetPanic{implicit: "invalid memory address or nil pointer dereference (nil mutex)"})
 	}
@@ -579,6 +581,7 @@ func (it *Interp) mutexLock(fr *frame, p *Value, write bool) {
 }
 
 func (it *Interp) mutexTryLock(fr *frame, p *Value) bool {
+	it.impure("mutex")
 	tab := it.mutexTable()
 	st := tab[p]
 	if st == nil {
@@ -597,6 +600,7 @@ func (it *Interp) mutexTryLock(fr *frame, p *Value) bool {
 }
 
 func (it *Interp) mutexUnlock(fr *frame, p *Value, write bool) {
+	it.impure("mutex")
 	tab := it.mutexTable()
 	st := tab[p]
 	if st == nil || (write && !st.writer) || (!write && st.readers == 0) {
